@@ -15,7 +15,7 @@ func init() {
 		LevelText:   "Structural clauses decided for all paths: SetCursor publishes with the ALL policy and caches only after a successful publish, both inside one critical section; becoming leader of a cursors partition purges the cache on every successful path; the fallback scan is a committed, reverse subscription from the latest message; a value obtained from the scan can enter the cache only in the critical section of the scan or through a non-overwriting insert; both entry points refuse when this server is not the partition leader. Correctness of the scan over compacted multi-segment logs depends on the reverse-scanner rule (shared R01.5); fail-over and pause/resume histories are not decided.",
 		LevelNote:   "Trusted: go/ssa; hashicorp/golang-lru semantics (Add overwrites, ContainsOrAdd/PeekOrAdd do not).",
 		DesignRef:   "DESIGN.md §4 C11",
-		Explanation: "R16.8 / R04.5 (shared) a present retention override is applied whatever its value; every in-sync entry is reset at the start of a term. R11.1 also: every successful SetCursor touches the cache entry; R11.9 the cursors stream is not subject to the retention limits (F100); R08.1 / R08.2 (shared) the key scan covers every segment and compaction keeps what it did not rewrite. R11.1 also: a failed SetCursor drops the cached cursor and a dead request publishes nothing (F93). R11.1 publish-then-cache under the lock, R11.2 purge on leadership, R11.3 scan request shape (+ shared R01.5 unit discipline and R01.8 index / reverse-scanner shapes), R11.4 no stale cache fill, R11.5 leader gate, R11.6 lock pairing; R11.3 also requires that 'not found' is answered only after a complete scan. R10.2/R10.3 (shared) the reverse scan runs to the oldest message on a read-only partition and ends with ResourceExhausted; R15.8 (shared) cursors.stream.* reach their Config fields. R04.2 (shared) offset progress — the leader's own on becoming leader included — signals the commit loop; R08.1 (shared) the compactor's scan loops end normally only at io.EOF; R11.7 the cursor key is an injective encoding (known finding K13); R11.8 a fetch on a leader relates the watermark it scans below to the end its log had when it took over (known finding K15). NOT decided: the scan result over compacted multi-segment logs as a value; pause/resume and fail-over histories.",
+		Explanation: "Rounds 9-10: R16.8 a stream keeps the configuration object it was handed (reserved-stream overrides reach the partitions); R05.8 (shared) the index rebuild accepts gaps. R16.8 / R04.5 (shared) a present retention override is applied whatever its value; every in-sync entry is reset at the start of a term. R11.1 also: every successful SetCursor touches the cache entry; R11.9 the cursors stream is not subject to the retention limits (F100); R08.1 / R08.2 (shared) the key scan covers every segment and compaction keeps what it did not rewrite. R11.1 also: a failed SetCursor drops the cached cursor and a dead request publishes nothing (F93). R11.1 publish-then-cache under the lock, R11.2 purge on leadership, R11.3 scan request shape (+ shared R01.5 unit discipline and R01.8 index / reverse-scanner shapes), R11.4 no stale cache fill, R11.5 leader gate, R11.6 lock pairing; R11.3 also requires that 'not found' is answered only after a complete scan. R10.2/R10.3 (shared) the reverse scan runs to the oldest message on a read-only partition and ends with ResourceExhausted; R15.8 (shared) cursors.stream.* reach their Config fields. R04.2 (shared) offset progress — the leader's own on becoming leader included — signals the commit loop; R08.1 (shared) the compactor's scan loops end normally only at io.EOF; R11.7 the cursor key is an injective encoding (known finding K13); R11.8 a fetch on a leader relates the watermark it scans below to the end its log had when it took over (known finding K15). NOT decided: the scan result over compacted multi-segment logs as a value; pause/resume and fail-over histories.",
 	})
 }
 
